@@ -4,4 +4,8 @@ go 1.21
 
 require github.com/TarsCloud/TarsGo v0.0.0
 
+require github.com/TarsCloud/TarsGo/tars/tools/tars2go v0.0.0
+
 replace github.com/TarsCloud/TarsGo => /repo
+
+replace github.com/TarsCloud/TarsGo/tars/tools/tars2go => /repo/tars/tools/tars2go
